@@ -440,6 +440,7 @@ class Layout:
             s = "   "
         if self.comments and r.random() < 0.08:
             c = r.choice(["/* c */", "/* = */", "/* END */", "/**/",
+                          "/* # not a line comment */",
                           "/* a\n b */" if newline_ok else "/* a b */"])
             s = s + c + " "
         return s
@@ -488,7 +489,8 @@ class Layout:
             if r.random() < 0.15:
                 s += self.nl
             if self.hash_comments and r.random() < 0.1:
-                s = " # note = 1" + s
+                s = r.choice([" # note = 1", " # see /* there",
+                              " # a */ b", " #"]) + s
             elif self.comments and r.random() < 0.1:
                 s += "/* next */" + self.nl
             return s + " " * (self.indent * b.depth)
